@@ -19,6 +19,11 @@ pub struct ListGen<'a> {
     /// (10) no pattern that constrains the tail after a branch that narrowed the field; (12) no branch after
     /// the field is used up.
     pub steer: bool,
+    /// notes/C02-fixes/14 has landed: a BINDER on a narrowed `('list | [])` field may be passed on as a list
+    pub opt_binder: bool,
+    /// the tail bound inside a structured sub-pattern on a `('list | [])` field may be passed on as a list
+    /// (open: it is typed `Cons | Nil | []`, see notes/C02-fixes/14 "REMAINS")
+    pub opt_tail: bool,
 }
 
 /// a branch of a generated function
@@ -50,7 +55,7 @@ pub struct Fun {
 
 impl<'a> ListGen<'a> {
     pub fn new(r: &'a mut Rng) -> Self {
-        ListGen { r, counter: 0, steer: false }
+        ListGen { r, counter: 0, steer: false, opt_binder: false, opt_tail: false }
     }
 
     fn k(&mut self) -> i64 {
@@ -209,6 +214,35 @@ impl<'a> ListGen<'a> {
         let k = self.k();
         pool.push(br(format!("=Node[_, Leaf[{k}]] => {k}"), false, false, true));
         self.assemble(name, "tree", "'tree", pool)
+    }
+
+    /// `[('list | []), 'int]` → integer: the recursive union flattened together with nil in a FIELD; after
+    /// the nil case the list is handed on to a total fold — as a whole (binder) or taken apart first
+    fn fun_opt(&mut self, fold: &str) -> Fun {
+        let name = self.fresh("o");
+        let k = self.k();
+        let mut brs = vec![format!("| =[[], a] => {}", self.int_expr(&["a"]))];
+        if self.r.chance(1, 2) {
+            brs.push(format!("| =[Nil, a] => {k}"));
+        }
+        let mut kinds = vec![0];
+        if self.opt_tail {
+            kinds.extend([1, 2]);
+        }
+        if self.opt_binder {
+            kinds.push(3);
+        }
+        match kinds[self.r.usize(kinds.len())] {
+            0 => brs.push(format!(
+                "| =[Cons[h, Nil], a] => {} | =[Cons[h, Cons[g, _]], a] => {}",
+                self.int_expr(&["a", "h"]),
+                self.int_expr(&["a", "h", "g"])
+            )),
+            1 => brs.push(format!("| =[Cons[h, t], a] => [t, {}] {fold}", self.int_expr(&["a", "h"]))),
+            2 => brs.push(format!("| =[Cons[h, Cons[g, t]], a] => [Cons[g, t], {}] {fold} | =[Cons[h, Nil], a] => h", self.int_expr(&["a", "h"]))),
+            _ => brs.push(format!("| =[x, a] => [x, {}] {fold}", self.int_expr(&["a"]))),
+        }
+        Fun { src: format!("{name} = #[('list | []), 'int] {{ {} }}", brs.join(" ")), name, kind: "opt", total: false }
     }
 
     fn assemble(&mut self, name: String, kind: &'static str, param: &str, mut pool: Vec<Br>) -> Fun {
@@ -410,6 +444,13 @@ impl<'a> ListGen<'a> {
             steps.push(f.src.clone());
             funs.push(f);
         }
+        let folds: Vec<String> = funs.iter().filter(|g| g.kind == "acc" && g.total).map(|g| g.name.clone()).collect();
+        if !folds.is_empty() && self.r.chance(1, 2) {
+            let fold = folds[self.r.usize(folds.len())].clone();
+            let f = self.fun_opt(&fold);
+            steps.push(f.src.clone());
+            funs.push(f);
+        }
         // observations
         let mut obs = vec![];
         let no = 1 + self.r.usize(3);
@@ -430,6 +471,11 @@ impl<'a> ListGen<'a> {
                     } else {
                         format!("[{l}, {k}] {name}")
                     }
+                }
+                "opt" => {
+                    let l = if self.r.chance(1, 3) { "[]".to_string() } else { self.list_lit() };
+                    let k = self.k();
+                    format!("[{l}, {k}] {name}")
                 }
                 "rev" => {
                     let (l1, l2) = (self.list_lit(), self.list_lit());
